@@ -286,6 +286,10 @@ func (tb *LTable) RawGet(key LValue) LValue {
 
 // RawGetInt returns an LValue at position `key` without __index metamethod.
 func (tb *LTable) RawGetInt(key int) LValue {
+	if key < 1 || key >= MaxArrayIndex {
+		// RawSetInt stores these keys in the hash part
+		return tb.RawGetH(LNumber(key))
+	}
 	if tb.array == nil {
 		return LNil
 	}
